@@ -216,6 +216,15 @@ func init() {
 		obj := e.newObject(types.NewArray(st.Elem(), int64(len(posts))), arr, "ncs posts")
 		return &SliceV{Arr: obj, Len: len(posts), Cap: len(posts)}, false
 	})
+	reg("Yield", func(e *Exec, fv *FuncV, args []Value, cc *ssa.CallCommon) (Value, bool) {
+		// an arbitrary scheduling point: either continue, or let every other thread run until it blocks
+		k := e.Choose(2)
+		e.ND = append(e.ND, NDEntry{Kind: "yield", Dec: k})
+		if k == 1 {
+			e.quiesce()
+		}
+		return nil, false
+	})
 	reg("ConcreteClock", func(e *Exec, fv *FuncV, args []Value, cc *ssa.CallCommon) (Value, bool) {
 		t := args[0].(*Term)
 		if !t.Const {
